@@ -66,9 +66,10 @@ def judge(run, rec, oracle, rec_noout=None):
         if rest != text:
             return "o-file-differs-from-library", "text after the header in the -o file differs from the library result: " + first_diff(rest, text)
         if rec_noout is not None and rec_noout["status"] == 0:
-            a = [ln for ln in ftext.split("\n") if not ln.startswith("command: ")]
-            b = [ln for ln in rec_noout["stdout"].split("\n") if not ln.startswith("command: ")]
-            if "\n".join(a) + "\n" != "\n".join(b):
+            # (the echoed command is left out: it names -o and the scratch directory, and it spans several lines when
+            # an argument does)
+            head_b, rest_b = split_header(rec_noout["stdout"])
+            if head.split("\n")[:2] != head_b.split("\n")[:2] or rest + "\n" != rest_b:
                 return "o-file-differs-from-stdout", "-o file is not the text that is printed without -o (same simulated instant)"
     else:
         head, rest = split_header(rec["stdout"])
